@@ -24,6 +24,10 @@ EXTRA = {'C01-m1': ['C04', 'C08'], 'C01-m2': ['C02', 'C09'], 'C02-m3': ['C09'], 
          'C13-m3': ['C10'], 'C14-m1': ['C11'], 'C16-m3': ['C11'], 'C18-m3': ['C20'],
          'C01c-m3': ['C08'], 'C02c-m3': ['C01', 'C07', 'C09'], 'C02c-m1': ['C01', 'C08'], 'C06c-m3': ['C12'],
          'C10c-m3': ['C11'], 'C17c-m3': ['C10'], 'C09-m2': ['C07', 'C01'], 'C14c-m2': ['C11'], 'C18c-m3': ['C20'],
+         'C02d-m1': ['C07', 'C10'], 'C02d-m2': ['C07', 'C11'], 'C07d-m1': ['C02', 'C11'], 'C07d-m2': ['C11'],
+         'C11d-m1': ['C02', 'C16'], 'C10d-m1': ['C05'], 'C10d-m2': ['C17'], 'C05d-m1': ['C10'], 'C05d-m2': ['C12'],
+         'C14d-m1': ['C11'], 'C14d-m2': ['C13'], 'C18d-m2': ['C20'], 'C04d-m1': ['C02', 'C11'], 'C04d-m2': ['C07', 'C11'],
+         'C01d-m2': ['C11', 'C10'], 'C13d-m2': ['C10'],
          'C20c-m3': ['C18'], 'C05c-m3': ['C19'], 'C07c-m3': ['C02'], 'C05c-m1': ['C11'], 'C14c-m1': ['C08'], 'C05c-m2': ['C10'], 'C07c-m2': ['C11'], 'C11c-m3': ['C07']}
 
 
